@@ -1,7 +1,7 @@
 """C06 -- schema verdict is the order-independent conjunction of its rules' verdicts.
 
 T-space: every sequence (= every permutation of every sub-multiset) of 0..n rules from a
-12-rule pool x 15 documents; relational oracle on the implementation's own rule tests,
+12-rule pool x 17 documents; relational oracle on the implementation's own rule tests,
 permutation invariance across the sequences of one multiset, absolute reference model.
 """
 import itertools
@@ -14,14 +14,14 @@ from valida.schema import Schema
 
 META = {
     "rule": "every ordered sequence of 0..n rules (n=2 quick, 3 thorough) from a 10-rule cast-free pool "
-            "(path lengths 0,0,1,1,1,1,1,1,2,2,1,1 with ties; '1' vs 1 keys) x 15 documents; a case is one (multiset of rules, "
+            "(path lengths 0,0,1,1,1,1,1,1,2,2,1,1 with ties; '1' vs 1 keys) x 17 documents; a case is one (multiset of rules, "
             "document) with all its permutations; non-trivial = at least two rules and at least one failure "
             "or one untested rule",
     "assumptions": ["the layout of the failure report is not judged: it must be a str and, when there are "
                     "failures, some line must contain the elements of each failing path in order",
                     "frac_rules_tested is compared for schemas with >= 1 rule only (undefined for the empty schema)"],
-    "bounds": {"quick": {"rules_per_schema": "0-2", "documents": 15},
-               "thorough": {"rules_per_schema": "0-3", "documents": 15}},
+    "bounds": {"quick": {"rules_per_schema": "0-2", "documents": 17},
+               "thorough": {"rules_per_schema": "0-3", "documents": 17}},
 }
 
 L = T.leaf
@@ -44,6 +44,7 @@ DOCS = [
     {"a": 1, "b": 2}, {"a": {"b": 1}}, {"a": {"b": 2}, "b": 5}, {"a": "x", "b": "y", "c": [1, 0, -1]},
     {"c": [1, 2]}, {"z": 0}, [1, 2], [0], {0: 1}, {"a": None}, {"a": 1, "b": 2, "c": 3, "d": 4},
     {"a": {"b": 1}, "c": [0, 0]}, {"1": "x", 1: 5, "a": 2}, [7, "y"], {"1": 5, 1: "x"},
+    {"a": 1.5, 1: None, None: [1], "b": {}, 2.5: 0.5}, {"c": [0, "x", -1, None, [1]], None: None},
 ]
 
 
@@ -161,7 +162,7 @@ def check_case(res, idxs, doc, key, perms=None):
                                   pcase, observed=report, expected=cp)
                     return
         # permutation invariance
-        pairs = sorted((repr(t), cp) for t, x in zip(want_order, sep) for cp in x[3])
+        pairs = sorted(((repr(t), cp) for t, x in zip(want_order, sep) for cp in x[3]), key=repr)
         s = (agg, pairs)
         if summary is None:
             summary = s
